@@ -349,3 +349,5 @@ def run(F, rep, tier):
     S.trial_env_fresh(F, rep, fns, "C16-R8", ("match_expression", "match_validate_arm_kinds", "execute_function_match_arms"), 3)
     S.catch_all_predicate(F, rep, fns)
     S.broadcast_shape(F, rep, fns)
+    from rules.pattern_arity import length_admissibility
+    length_admissibility(F, rep, "C16-R11")
